@@ -25,19 +25,290 @@ inductive InGrammar : Ast → Prop
   | slice (lo hi st) : (∀ e, lo = some e → InGrammar e) → (∀ e, hi = some e → InGrammar e) →
       (∀ e, st = some e → InGrammar e) → InGrammar (.slice lo hi st)
 
+/-- induction over `Ast` with membership-style hypotheses for the nested occurrences -/
+theorem Ast.ind {M : Ast → Prop}
+    (const : ∀ c, M (.const c))
+    (name : ∀ id, M (.name id))
+    (tuple : ∀ es, (∀ e ∈ es, M e) → M (.tuple es))
+    (list : ∀ es, (∀ e ∈ es, M e) → M (.list es))
+    (unary : ∀ op e, M e → M (.unary op e))
+    (bin : ∀ op l r, M l → M r → M (.bin op l r))
+    (boolop : ∀ op vs, (∀ e ∈ vs, M e) → M (.boolop op vs))
+    (compare : ∀ l ops rs, M l → (∀ e ∈ rs, M e) → M (.compare l ops rs))
+    (subscript : ∀ v sl, M v → M sl → M (.subscript v sl))
+    (slice : ∀ lo hi st, (∀ e, lo = some e → M e) → (∀ e, hi = some e → M e) →
+      (∀ e, st = some e → M e) → M (.slice lo hi st))
+    (forbidden : ∀ k cs, (∀ e ∈ cs, M e) → M (.forbidden k cs)) : ∀ e, M e := by
+  intro e
+  refine Ast.rec (motive_1 := M) (motive_2 := fun es => ∀ e ∈ es, M e)
+    (motive_3 := fun o => ∀ e, o = some e → M e)
+    const name tuple list unary bin boolop (fun l ops rs hl hrs => compare l ops rs hl hrs)
+    subscript slice forbidden ?_ ?_ ?_ ?_ e
+  · intro e he; cases he
+  · intro a as ha has e he
+    cases he with
+    | head => exact ha
+    | tail _ h => exact has e h
+  · intro e he; cases he
+  · intro a ha e he; cases he; exact ha
+
+theorem validateList_iff (es : List Ast) :
+    validateList es = true ↔ ∀ e ∈ es, validate e = true := by
+  induction es with
+  | nil => simp [validateList]
+  | cons a as ih => simp [validateList, ih]
+
+theorem validateOpt_iff (o : Option Ast) :
+    validateOpt o = true ↔ ∀ e, o = some e → validate e = true := by
+  cases o <;> simp [validateOpt]
+
 theorem validate_iff_inGrammar (e : Ast) : validate e = true ↔ InGrammar e := by
-  sorry
+  induction e using Ast.ind with
+  | const c =>
+    cases c <;> simp [validate, constAllowed]
+    · exact .int _
+    · exact .float _
+    · exact .bool _
+    · intro h; cases h
+  | name id =>
+    simp only [validate, beq_iff_eq]
+    constructor
+    · rintro rfl; exact .x
+    · intro h; cases h; rfl
+  | tuple es ih =>
+    simp only [validate, validateList_iff]
+    constructor
+    · intro h; exact .tuple _ fun e he => (ih e he).1 (h e he)
+    · intro h; cases h with | tuple _ h => exact fun e he => (ih e he).2 (h e he)
+  | list es ih =>
+    simp only [validate, validateList_iff]
+    constructor
+    · intro h; exact .list _ fun e he => (ih e he).1 (h e he)
+    · intro h; cases h with | list _ h => exact fun e he => (ih e he).2 (h e he)
+  | unary op e ih =>
+    simp only [validate, Bool.and_eq_true]
+    constructor
+    · rintro ⟨h1, h2⟩; exact .unary _ _ h1 (ih.1 h2)
+    · intro h; cases h with | unary _ _ h1 h2 => exact ⟨h1, ih.2 h2⟩
+  | bin op l r ihl ihr =>
+    simp only [validate, Bool.and_eq_true]
+    constructor
+    · rintro ⟨⟨h1, h2⟩, h3⟩; exact .bin _ _ _ h1 (ihl.1 h2) (ihr.1 h3)
+    · intro h; cases h with | bin _ _ _ h1 h2 h3 => exact ⟨⟨h1, ihl.2 h2⟩, ihr.2 h3⟩
+  | boolop op vs ih =>
+    simp only [validate, validateList_iff]
+    constructor
+    · intro h; exact .boolop _ _ fun e he => (ih e he).1 (h e he)
+    · intro h; cases h with | boolop _ _ h => exact fun e he => (ih e he).2 (h e he)
+  | compare l ops rs ihl ih =>
+    simp only [validate, Bool.and_eq_true, validateList_iff, List.all_eq_true]
+    constructor
+    · rintro ⟨⟨h1, h2⟩, h3⟩
+      exact .compare _ _ _ h1 (ihl.1 h2) fun e he => (ih e he).1 (h3 e he)
+    · intro h
+      cases h with
+      | compare _ _ _ h1 h2 h3 => exact ⟨⟨h1, ihl.2 h2⟩, fun e he => (ih e he).2 (h3 e he)⟩
+  | subscript v sl ihv ihs =>
+    simp only [validate, Bool.and_eq_true]
+    constructor
+    · rintro ⟨h1, h2⟩; exact .subscript _ _ (ihv.1 h1) (ihs.1 h2)
+    · intro h; cases h with | subscript _ _ h1 h2 => exact ⟨ihv.2 h1, ihs.2 h2⟩
+  | slice lo hi st ih1 ih2 ih3 =>
+    simp only [validate, Bool.and_eq_true, validateOpt_iff]
+    constructor
+    · rintro ⟨⟨h1, h2⟩, h3⟩
+      exact .slice _ _ _ (fun e he => (ih1 e he).1 (h1 e he)) (fun e he => (ih2 e he).1 (h2 e he))
+        (fun e he => (ih3 e he).1 (h3 e he))
+    · intro h
+      cases h with
+      | slice _ _ _ h1 h2 h3 =>
+        exact ⟨⟨fun e he => (ih1 e he).2 (h1 e he), fun e he => (ih2 e he).2 (h2 e he)⟩,
+          fun e he => (ih3 e he).2 (h3 e he)⟩
+  | forbidden k cs _ =>
+    simp only [validate]
+    constructor
+    · intro h; cases h
+    · intro h; cases h
+
 
 /-- comparison primitives return booleans, and booleans are their own truth value -/
 structure CmpBool (P : Prims) : Prop where
   cmp_bool : ∀ op a b v, P.cmp op a b = .ok v → ∃ t, v = .bool t
   truthy_bool : ∀ t, P.truthy (.bool t) = t
 
-theorem eval_eq_pyEval (P : Prims) (hP : CmpBool P) (x : Val) (e : Ast) (h : InGrammar e) :
-    eval P x e = pyEval P x e := by
-  sorry
+section
+variable (P : Prims) (x : Val)
 
-theorem pyPrims_cmpBool : CmpBool pyPrims := by
-  sorry
+theorem evalList_eq (es : List Ast) (h : ∀ e ∈ es, eval P x e = pyEval P x e) :
+    evalList P x es = pyEvalList P x es := by
+  induction es with
+  | nil => simp only [evalList, pyEvalList]
+  | cons a as ih =>
+    simp only [evalList, pyEvalList]
+    rw [h a (List.mem_cons_self ..), ih fun e he => h e (List.mem_cons_of_mem _ he)]
+
+theorem evalOpt_eq (o : Option Ast) (h : ∀ e, o = some e → eval P x e = pyEval P x e) :
+    evalOpt P x o = pyEvalOpt P x o := by
+  cases o with
+  | none => simp only [evalOpt, pyEvalOpt]
+  | some e => simp only [evalOpt, pyEvalOpt]; exact h e rfl
+
+theorem evalAnd_eq (v : Ast) (vs : List Ast) (h : ∀ e ∈ v :: vs, eval P x e = pyEval P x e)
+    (acc : Val) : evalAnd P x acc (v :: vs) = pyAnd P x (v :: vs) := by
+  induction vs generalizing v acc with
+  | nil =>
+    simp only [evalAnd, pyAnd]
+    rw [h v (List.mem_cons_self ..)]
+    cases pyEval P x v with
+    | error e => rfl
+    | ok r => simp only [bind, Except.bind, ite_self]; rfl
+  | cons w ws ih =>
+    rw [evalAnd, pyAnd.eq_3 _ _ _ _ (by simp), h v (List.mem_cons_self ..)]
+    cases pyEval P x v with
+    | error e => rfl
+    | ok r =>
+      have := ih w (fun e he => h e (List.mem_cons_of_mem _ he)) r
+      simp only [bind, Except.bind, this]
+
+theorem evalOr_eq (v : Ast) (vs : List Ast) (h : ∀ e ∈ v :: vs, eval P x e = pyEval P x e)
+    (acc : Val) : evalOr P x acc (v :: vs) = pyOr P x (v :: vs) := by
+  induction vs generalizing v acc with
+  | nil =>
+    simp only [evalOr, pyOr]
+    rw [h v (List.mem_cons_self ..)]
+    cases pyEval P x v with
+    | error e => rfl
+    | ok r => simp only [bind, Except.bind, ite_self]; rfl
+  | cons w ws ih =>
+    rw [evalOr, pyOr.eq_3 _ _ _ _ (by simp), h v (List.mem_cons_self ..)]
+    cases pyEval P x v with
+    | error e => rfl
+    | ok r =>
+      have := ih w (fun e he => h e (List.mem_cons_of_mem _ he)) r
+      simp only [bind, Except.bind, this]
+
+variable {P} in
+theorem cmp_step (hP : CmpBool P) (op : CmpOp) (a b : Val) (k : Except Err Val) :
+    (do let c ← P.cmp op a b; if P.truthy c = true then k else pure (Val.bool false)) =
+    (do let c ← P.cmp op a b; if P.truthy c = true then k else pure c) := by
+  cases hc : P.cmp op a b with
+  | error e => rfl
+  | ok c =>
+    obtain ⟨t, rfl⟩ := hP.cmp_bool _ _ _ _ hc
+    cases t <;> simp [bind, Except.bind, hP.truthy_bool]
+
+variable {P} in
+theorem cmp_last (hP : CmpBool P) (op : CmpOp) (a b : Val) :
+    (do let c ← P.cmp op a b; if P.truthy c = true then pure (Val.bool true) else pure c) =
+    P.cmp op a b := by
+  cases hc : P.cmp op a b with
+  | error e => rfl
+  | ok c =>
+    obtain ⟨t, rfl⟩ := hP.cmp_bool _ _ _ _ hc
+    cases t <;> simp [bind, Except.bind, hP.truthy_bool] <;> rfl
+
+theorem evalCmp_eq (hP : CmpBool P) (ops : List CmpOp) (rs : List Ast)
+    (hops : ∀ o ∈ ops, cmpAllowed o = true) (h : ∀ e ∈ rs, eval P x e = pyEval P x e)
+    (left : Val) : evalCmp P x left ops rs = pyCmp P x left ops rs := by
+  induction ops generalizing rs left with
+  | nil => rw [evalCmp.eq_2 _ _ _ _ _ (by simp), pyCmp.eq_3 _ _ _ _ _ (by simp) (by simp)]
+  | cons op ops ih =>
+    cases rs with
+    | nil => rw [evalCmp.eq_2 _ _ _ _ _ (by simp), pyCmp.eq_3 _ _ _ _ _ (by simp) (by simp)]
+    | cons r rs =>
+      have hop : cmpAllowed op = true := hops op (List.mem_cons_self ..)
+      have ih' := fun l => ih rs (fun o ho => hops o (List.mem_cons_of_mem _ ho))
+        (fun e he => h e (List.mem_cons_of_mem _ he)) l
+      rw [evalCmp.eq_1, h r (List.mem_cons_self ..)]
+      simp only [hop, if_true]
+      by_cases hnil : ops = [] ∧ rs = []
+      · obtain ⟨rfl, rfl⟩ := hnil
+        rw [pyCmp.eq_1]
+        simp only [hop, if_true]
+        congr 1; funext right
+        rw [evalCmp.eq_2 _ _ _ _ _ (by simp), cmp_step hP, cmp_last hP]
+      · rw [pyCmp.eq_2 _ _ _ _ _ _ _ (fun h1 h2 => hnil ⟨h1, h2⟩)]
+        simp only [hop, if_true]
+        congr 1; funext right
+        rw [cmp_step hP, ih']
+end
+
+theorem eval_eq_pyEval_aux (P : Prims) (hP : CmpBool P) (x : Val) (e : Ast) :
+    InGrammar e → eval P x e = pyEval P x e ∧
+      ∀ lo hi st, e = .slice lo hi st → evalOpt P x lo = pyEvalOpt P x lo ∧
+        evalOpt P x hi = pyEvalOpt P x hi ∧ evalOpt P x st = pyEvalOpt P x st := by
+  induction e using Ast.ind with
+  | const c => intro _; exact ⟨by simp only [eval, pyEval], by intros; contradiction⟩
+  | name id => intro _; exact ⟨by simp only [eval, pyEval], by intros; contradiction⟩
+  | tuple es ih =>
+    intro h; cases h with | tuple _ h => ?_
+    refine ⟨?_, by intros; contradiction⟩
+    simp only [eval, pyEval, evalList_eq P x es fun e he => (ih e he (h e he)).1]
+  | list es ih =>
+    intro h; cases h with | list _ h => ?_
+    refine ⟨?_, by intros; contradiction⟩
+    simp only [eval, pyEval, evalList_eq P x es fun e he => (ih e he (h e he)).1]
+  | unary op e ih =>
+    intro h; cases h with | unary _ _ h1 h2 => ?_
+    refine ⟨?_, by intros; contradiction⟩
+    simp only [eval, pyEval, h1, if_true, (ih h2).1]
+  | bin op l r ihl ihr =>
+    intro h; cases h with | bin _ _ _ h1 h2 h3 => ?_
+    refine ⟨?_, by intros; contradiction⟩
+    simp only [eval, pyEval, h1, if_true, (ihl h2).1, (ihr h3).1]
+  | boolop op vs ih =>
+    intro h; cases h with | boolop _ _ h => ?_
+    refine ⟨?_, by intros; contradiction⟩
+    have h' := fun e he => (ih e he (h e he)).1
+    cases op <;> cases vs with
+    | nil => simp only [eval, pyEval, evalAnd, evalOr, pyAnd, pyOr]
+    | cons v vs => simp only [eval, pyEval, evalAnd_eq P x v vs h', evalOr_eq P x v vs h']
+  | compare l ops rs ihl ih =>
+    intro h; cases h with | compare _ _ _ h1 h2 h3 => ?_
+    refine ⟨?_, by intros; contradiction⟩
+    simp only [eval, pyEval, (ihl h2).1]
+    congr 1; funext left
+    exact evalCmp_eq P x hP ops rs h1 (fun e he => (ih e he (h3 e he)).1) left
+  | subscript v sl ihv ihs =>
+    intro h; cases h with | subscript _ _ h1 h2 => ?_
+    refine ⟨?_, by intros; contradiction⟩
+    rw [eval.eq_10, pyEval.eq_10, (ihv h1).1]
+    congr 1; funext seq
+    split
+    · obtain ⟨e1, e2, e3⟩ := (ihs h2).2 _ _ _ rfl
+      rw [e1, e2, e3]
+    · rw [(ihs h2).1]
+  | slice lo hi st ih1 ih2 ih3 =>
+    intro h; cases h with | slice _ _ _ h1 h2 h3 => ?_
+    refine ⟨by simp only [eval, pyEval], ?_⟩
+    intro lo' hi' st' heq
+    cases heq
+    exact ⟨evalOpt_eq P x _ fun e he => (ih1 e he (h1 e he)).1,
+      evalOpt_eq P x _ fun e he => (ih2 e he (h2 e he)).1,
+      evalOpt_eq P x _ fun e he => (ih3 e he (h3 e he)).1⟩
+  | forbidden k cs _ => intro h; cases h
+
+theorem eval_eq_pyEval (P : Prims) (hP : CmpBool P) (x : Val) (e : Ast) (h : InGrammar e) :
+    eval P x e = pyEval P x e :=
+  (eval_eq_pyEval_aux P hP x e h).1
+
+theorem pyPrims_cmpBool : CmpBool pyPrims where
+  truthy_bool _ := rfl
+  cmp_bool op a b v h := by
+    have key : ∀ (m : Except Err Bool) (f : Bool → Bool),
+        (do pure (Val.bool (f (← m))) : Except Err Val) = .ok v → ∃ t, v = .bool t := by
+      intro m f hm
+      cases m with
+      | error e => cases hm
+      | ok b => cases hm; exact ⟨_, rfl⟩
+    change pyCmpOp op a b = .ok v at h
+    cases op with
+    | eq => exact key (pyEq a b) id h
+    | ne => exact key (pyEq a b) (!·) h
+    | other s => simp [pyCmpOp] at h
+    | lt => exact key (pyOrd _ a b) id h
+    | le => exact key (pyOrd _ a b) id h
+    | gt => exact key (pyOrd _ a b) id h
+    | ge => exact key (pyOrd _ a b) id h
 
 end Pq.Expr
